@@ -107,14 +107,17 @@ def shape(v):
     return (type(v).__name__,)
 
 
-def shapes_compatible(a, b):
+# methods documented to return None for "nothing"
+NONE_OK = {"terminal", "parent", "cwd"}
+
+
+def shapes_compatible(a, b, mname=None):
     if a == b:
         return True
     if a[0] == "list" and b[0] == "list":
         return a[1] is None or b[1] is None or a[1] == b[1]
-    # methods documented to return None for "nothing"
     if a == ("NoneType",) or b == ("NoneType",):
-        return True
+        return mname is None or mname in NONE_OK
     if {a[0], b[0]} <= {"int", "float"}:
         return True
     return False
@@ -211,7 +214,7 @@ def run_case(case):
                             f"{desc}: raised {exc!r}, which this fault cannot explain")
         if exc is not None and getattr(exc, "pid", None) != PID:
             raise Violation("wrong-pid", f"{desc}: {exc!r} carries pid {getattr(exc, 'pid', None)}")
-        if exc is None and not shapes_compatible(shape(val), base_shape):
+        if exc is None and not shapes_compatible(shape(val), base_shape, mname):
             raise Violation("malformed-value",
                             f"{desc}: returned {val!r} (shape {shape(val)}), fault-free shape {base_shape}")
         return cls
